@@ -698,10 +698,11 @@ FAMILIES = (["grid"] * 6 + ["open"] * 7 + ["healpix"] * 2 + ["simpleopen"] * 3 +
 # generated less often, kept within one batch chunk, and get fewer unbatched calls.
 
 
-def gen_grid(ck, rng):
+def gen_grid(ck, rng, i=0):
     G, GI = ck.state["G"], ck.state["GI"]
     cap = ck.pick(6000, 50000)
-    fam = pick(rng, FAMILIES)
+    # round-robin over the case index (seed-dependent offset): every family early in the run
+    fam = FAMILIES[(i * 11 + int(ck.rng(777).integers(0, len(FAMILIES)))) % len(FAMILIES)]
     depth = int(pick(rng, [0, 1, 2, 2, 2, 3, 3]))
     if fam in ("grid", "open", "healpix", "simpleopen", "log", "brokenlog"):
         g, part, d = gen_base(ck, rng, depth, cap, [fam])
@@ -829,7 +830,7 @@ def P(fn, arr, *a, axis=1, **kw):
 
 def case(ck, i):
     rng = ck.rng()
-    fam, g, ref, desc = gen_grid(ck, rng)
+    fam, g, ref, desc = gen_grid(ck, rng, i)
     depth = ref.depth
     prod = ref.prod if ref.flatlike else ref
     aniso = any(len(set(int(x) for x in prod.splits(l))) > 1 for l in range(depth))
